@@ -112,6 +112,31 @@ theorem exactly_once {s : State} (h : Reach dl cap s) (hq : s.fired = false)
     have := hi.doneNodup; rw [hdrop] at this; simpa using this
   rw [hnd.count]; simp [hmem]
 
+/-- **An overflow loses only the duties it drops.** Without the hypothesis that nothing was ever
+dropped: in a quiescent reachable state every duty that was accepted as scheduled and is due has
+been reported exactly once or is one of the duties dropped while the buffer was full
+(`drop_only_when_full`). In particular a duty registered after an overflow, which finds room in the
+buffer when its deadline fires, is reported: an overflow does not stall the deadliner. -/
+theorem reported_unless_dropped {s : State} (h : Reach dl cap s) (hq : s.fired = false)
+    {d : Duty} (hs : d ∈ s.sched) (hdue : dlOf dl d ≤ s.now) (hnd : d ∉ s.dropped) :
+    d ∈ s.reported ∧ s.reported.count d = 1 := by
+  have hi := reach_inv dl cap h
+  have hmem : d ∈ s.reported := by
+    rcases hi.schedAcc d hs with h1 | h1
+    · exfalso
+      cases hc : s.curr with
+      | none => have := hi.currNone hc; rw [this] at h1; cases h1
+      | some c =>
+        have hmin := (hi.currMin c hc).2 d h1
+        have : s.fired = true := hi.firedIff.mpr ⟨c, hc, by omega⟩
+        rw [hq] at this; cases this
+    · rcases List.mem_append.mp h1 with h2 | h2
+      · exact h2
+      · exact absurd h2 hnd
+  refine ⟨hmem, ?_⟩
+  have hnodup : s.reported.Nodup := (List.nodup_append.mp hi.doneNodup).1
+  rw [hnodup.count]; simp [hmem]
+
 /-- A drop happens only when the buffer is full at the moment the timer event is processed
 (hypothesis H1 of `exactly_once`: "a consumer that keeps reading"). -/
 theorem drop_only_when_full (s : State) (e : Ev)
